@@ -273,6 +273,12 @@ def agree(impl, model, req=None):
     h = head(impl).split()
     if req and req.split()[1] == "cp":
         return h[:3] == model.split()
+    if req and req.split()[1] == "buf":
+        # compared: result code, result length, result units, terminator.  The capacity of the result block and the trace of
+        # allocator / ICU calls are NOT compared (no property fixes them: a different first-buffer guess is a harmless rewrite);
+        # the oracle checks the safety conditions on the implementation's own trace.
+        keep = lambda toks: [x for x in toks if not (x.startswith("tr=") or x.startswith("cap="))]
+        return keep(h) == keep(model.split())
     return h == model.split()
 
 
